@@ -170,9 +170,9 @@ def snapshot(H, s, ok, exc):
             tuple(sorted((k, (v.name if hasattr(v, 'name') and not isinstance(v, (int, float, str)) else
                               (v.hex() if isinstance(v, float) else v), type(v).__name__)) for k, v in s._v.values.items())),
             tuple(sorted(s.forms)),
-            tuple(sorted(s.unimplemented_fields())),
-            tuple(sorted((d, tuple(sorted(w))) for d, w in s.unmet_field_dependencies().items() if w)),
-            tuple(sorted((d, tuple(sorted(w))) for d, w in s.unmet_input_dependencies().items() if w)))
+            tuple(sorted(set(s.unimplemented_fields()))),
+            tuple(sorted((d, tuple(sorted(set(w)))) for d, w in s.unmet_field_dependencies().items() if w)),
+            tuple(sorted((d, tuple(sorted(set(w)))) for d, w in s.unmet_input_dependencies().items() if w)))
 
 
 # ------------------------------------------------------------------ the runner
